@@ -218,7 +218,9 @@ func (wt writeTxn) Create(v interface{}) error {
 		return err
 	}
 
+	verifPoint("store.committed", wt.id)
 	wt.st.callOnChange(wt.id, nil, v)
+	verifPoint("store.notified", wt.id)
 	return nil
 }
 
@@ -263,7 +265,9 @@ func (wt writeTxn) Update(v interface{}) error {
 		return err
 	}
 
+	verifPoint("store.committed", wt.id)
 	wt.st.callOnChange(wt.id, before, v)
+	verifPoint("store.notified", wt.id)
 	return nil
 }
 
@@ -305,7 +309,9 @@ func (wt writeTxn) Delete() error {
 		return err
 	}
 
+	verifPoint("store.committed", wt.id)
 	wt.st.callOnChange(wt.id, before, nil)
+	verifPoint("store.notified", wt.id)
 	return nil
 }
 
@@ -369,6 +375,7 @@ func (st *Store) Init(cb func(add func(id string, v interface{})) error) error {
 			return adderr
 		}
 
+		verifPoint("init.begin", "")
 		// Write resources
 		for id, v := range entries {
 			rname := []byte(st.prefix + id)
@@ -384,6 +391,7 @@ func (st *Store) Init(cb func(add func(id string, v interface{})) error) error {
 				return err
 			}
 			created[id] = v
+			verifPoint("init.wrote", id)
 		}
 
 		// Call OnChange callback
@@ -391,6 +399,7 @@ func (st *Store) Init(cb func(add func(id string, v interface{})) error) error {
 			st.callOnChange(id, nil, v)
 		}
 
+		verifPoint("init.marking", "")
 		// Set init flag key
 		return txn.Set(initKey, nil)
 	})
